@@ -221,6 +221,18 @@ def twice_oracle(line, case):
     return None
 
 
+def after_reject_cases(ifaces):
+    echo = ifaces['echo']
+    ident = {d.cmd: d.id for d in echo.decls}
+    out = []
+    for bad, e in [(b'SET:U8 300', '-120'), (b'SET:U8 "x"', '-104'), (b'SET:BOOL 2', '-224'), (b'SET:U8', '-115'), (b'SET:U8 1,2', '-115')]:
+        for nxt, entry in [(b'U16 5', f"{ident['SET:U16']}(u16:5)"), (b'I8 -3', f"{ident['SET:I8']}(i8:-3)"), (b':SET:U16 5', f"{ident['SET:U16']}(u16:5)")]:
+            text = bad + b';' + nxt + b'\n'
+            out.append(Case(f'RUN echo std {hx(text)}', run_oracle, {'log': [entry], 'errs': [e], 'kind': 'RUN-after-reject'}))
+            out.append(Case(f'PROC echo 64 {hx(text)} 3,3,3,3,3,3,3,3,3,3,3', run_oracle, {'log': [entry], 'errs': [e], 'kind': 'RUN-after-reject'}))
+    return out
+
+
 def twice_cases():
     out = []
     for a, b, e in [(b'SET:U8 256', b'SET:U8 300', '-120'), (b'SET:U16 "1"', b'SET:STR 5', '-104'), (b'BOOL 2', b'BOOL 7', '-224'),
@@ -252,4 +264,4 @@ def corpus_cases(ifaces):
 
 
 def cases(tier, rng, ifaces):
-    return conv_cases(rng, tier) + run_cases(rng, tier, ifaces) + big_block_cases(tier) + twice_cases() + lf_payload_cases(rng)
+    return conv_cases(rng, tier) + run_cases(rng, tier, ifaces) + big_block_cases(tier) + twice_cases() + lf_payload_cases(rng) + after_reject_cases(ifaces)
